@@ -79,6 +79,7 @@ PROPS = {
         assumptions=[A['A2'], A['A3'], "T1 an integer polynomial identity holds in every commutative ring (used to read G1's identities in Fq2)", A['D_FQ'], A['TOOLS']],
     ),
     'C14': dict(
+        standins=['map_to_curve_api'],
         units_quick=['h2c', 'cofactor', 'curve'], units_thorough=['h2c', 'cofactor', 'curve'], timeout=1800,
         claim="map_to_curve(u) = [h_eff] iso(sswu(u)) and map2_to_curve(u0,u1) = [h_eff](iso(sswu(u0)) + iso(sswu(u1))) with + the group law of the "
               "target curve, for every u (generic real bodies verified once against the trait contracts of OSSWUMap, IsogenyMap, ClearH, add_assign); "
@@ -89,7 +90,7 @@ PROPS = {
                      "trait contracts of OSSWUMap / IsogenyMap / ClearH / SubgroupCheck are assumed in unit h2c; ClearH's is proved in unit cofactor, add_assign's in unit curve", A['TOOLS']],
     ),
     'C05': dict(
-        standins=['encoders_api'],
+        standins=['encoders_api', 'decoders_api'],
         units_quick=['encode', 'codec'], units_thorough=['encode', 'codec', 'recover', 'order', 'consts'], timeout=1800,
         claim="the byte accessors AsRef / AsMut<[u8]> of the four encoding newtypes (real bodies) hand out the whole array in order (length 96/48/192/96; writes through as_mut land in the encoding); "
               "the four encoders (real bodies of EncodedPoint::from_affine and empty for G1/G2, compressed/uncompressed) return exactly the byte strings enc_* of "
@@ -153,7 +154,7 @@ PROPS = {
                      "rewrites R3s (for n in x.iter().rev()), R4b (for r in &CONST_ARRAY), R13 (integer-literal fallback i32 written out), R14 (operators on &i64 written with explicit deref)", A['TOOLS']],
     ),
     'C04': dict(
-        standins=['fq2_sqrt_order'],
+        standins=['fq2_sqrt_order', 'decoders_api'],
         units_quick=['codec', 'scalar', 'recover', 'order'], units_thorough=['codec', 'scalar', 'recover', 'order', 'curve'], timeout=1800,
         claim="the four decoders (real bodies of into_affine_unchecked and into_affine for G1/G2, compressed/uncompressed) equal the decoding functions "
               "dec_* / chk_* of specs/codec.vrs, written from the property statement, for every byte string of the right length: form flag, then "
